@@ -21,6 +21,8 @@ type Obligation struct {
 	Formula string
 	Pos     token.Position
 	Props   []string
+	Callee  string // for call-site requires obligations: contract name and clause
+	Clause  string
 	bodyPos int // number of body lines that precede it
 	// filled by the driver
 	Status string // proved | failed | unknown | vacuous
@@ -141,11 +143,12 @@ func (e *FuncEnc) oblige(class, detail, formula string, pos token.Pos) *Obligati
 	if formula == "true" {
 		return nil
 	}
-	n := e.classCount[class]
-	e.classCount[class] = n + 1
-	name := fmt.Sprintf("%s/%s#%d", e.Name, class, n)
-	if detail != "" {
-		name += "/" + detail
+	key := class + "/" + detail
+	n := e.classCount[key]
+	e.classCount[key] = n + 1
+	name := fmt.Sprintf("%s/%s#%d", e.Name, key, n)
+	if detail == "" {
+		name = fmt.Sprintf("%s/%s#%d", e.Name, class, n)
 	}
 	o := &Obligation{Name: name, Func: e.Name, Class: class, Detail: detail, Guard: e.curReach, Formula: formula, bodyPos: len(e.body)}
 	if pos.IsValid() && e.Fn.Prog != nil {
